@@ -196,18 +196,39 @@ def start (H : J → β) (s : St β) (c : StartCfg) : St β × Out :=
                      devPub := dev.pub, devPriv := dev.priv, pin := c.pin, setupId := c.setupId, cat := c.cat, db := c.db } },
      .started)
 
+/-- the entity stored under `n` holds a private key: it is the accessory's own, not a pairing. Pair-setup M5 and
+    /pairings refuse to store or remove a pairing under such a name (F16 repair; before it a controller that named itself
+    like the accessory replaced the accessory's key pair). -/
+def ownEntity (n : Nat) (es : List Entity) : Bool :=
+  match lookup n es with
+  | some e => e.priv.isSome
+  | none => false
+
 def step (H : J → β) (s : St β) : Step → St β × Out
   | .start c => start H s c
+  | .pair n k =>
+    if ownEntity n s.store.entities then (s, .done) else
+    let es := upsert ⟨n, k, none⟩ s.store.entities
+    ({ store := { s.store with entities := es }, run := refresh es s.run }, .done)
+  | .unpair n =>
+    if ownEntity n s.store.entities then (s, .done) else
+    let es := remove n s.store.entities
+    ({ store := { s.store with entities := es }, run := refresh es s.run }, .done)
+
+  | .setValue p v => ({ s with run := s.run.map fun r => { r with db := setAt p v r.db } }, .done)
+  | .stop => ({ s with run := none }, .done)
+  | .wipe .version => ({ s with store := { s.store with version := none } }, .done)
+  | .wipe .configHash => ({ s with store := { s.store with configHash := none } }, .done)
+
+/-- the same without the guard: the behaviour before the repair of F16 -/
+def stepOld (H : J → β) (s : St β) : Step → St β × Out
   | .pair n k =>
     let es := upsert ⟨n, k, none⟩ s.store.entities
     ({ store := { s.store with entities := es }, run := refresh es s.run }, .done)
   | .unpair n =>
     let es := remove n s.store.entities
     ({ store := { s.store with entities := es }, run := refresh es s.run }, .done)
-  | .setValue p v => ({ s with run := s.run.map fun r => { r with db := setAt p v r.db } }, .done)
-  | .stop => ({ s with run := none }, .done)
-  | .wipe .version => ({ s with store := { s.store with version := none } }, .done)
-  | .wipe .configHash => ({ s with store := { s.store with configHash := none } }, .done)
+  | st => step H s st
 
 def run (H : J → β) (s : St β) : List Step → St β
   | [] => s
